@@ -85,10 +85,19 @@ def run_case(ctx, g, rng):
             strings = [p + d + "1" for r in recs for p in spec.all_p(r)] + [p for r in recs for p in spec.all_p(r)[:1]]
 
             def ask(cc, s):
+                # every entry point of the property, not just the string forms: a lookup that remembers a miss may sit
+                # behind one of them only (seed C02-O: get_record behind expand_pair_all)
                 call(cc.expand, s)
                 call(cc.expand_all, s)
                 call(cc.is_curie, s)
                 call(cc.standardize_prefix, s)
+                call(cc.parse_curie, s)
+                i0 = s.find(d)
+                p0, id0 = (s[:i0], s[i0 + len(d):]) if i0 >= 0 else (s, "1")
+                call(cc.expand_pair, p0, id0)
+                call(cc.expand_pair_all, p0, id0)
+                call(cc.expand_reference, api.ReferenceTuple(p0, id0))
+                call(cc.get_record, p0)
 
             c, how = grow_while_asking(api, recs, d, rng, ask, strings), "asked-while-growing"
         else:
